@@ -112,7 +112,8 @@ func rootDrifted(root *rc.Pos, ep *position.Position) bool {
 // leaf value = the engine's static evaluation, terminal scores as stated in the property.
 func (r *refSearch) negamax(ep *position.Position, rp *rc.Pos, depth, ply int) int {
 	r.nodes++
-	if driftPossible(rp) {
+	// (a leaf is evaluated statically - quiescence is off here - so no promotion is made or tried there)
+	if depth > 0 && driftPossible(rp) {
 		r.drift = true
 	}
 	if depth == 0 {
@@ -381,7 +382,27 @@ func genC06(t *rapid.T, maxDepth int, quiescence bool) c06Case {
 		c.Combos = []int{0, 127, 1 << uint(rapid.IntRange(0, 6).Draw(t, "single")), rapid.IntRange(1, 126).Draw(t, "combo2")} // all off, all on, one technique alone (nothing masks its errors), a drawn mix
 		return c
 	}
-	switch rapid.IntRange(0, 11).Draw(t, "src") {
+	switch rapid.IntRange(0, 14).Draw(t, "src") {
+	case 11, 12, 13, 14: // openings: castling rights still held and the uncastled kings open to checks along diagonals and files -
+		// interior nodes in check whose replies include interpositions, with castling moves "available" next to them
+		open := []string{rc.StartFEN, "rnbqkbnr/pppp1ppp/8/4p3/4P3/8/PPPP1PPP/RNBQKBNR w KQkq - 0 2", "rnbqkbnr/ppp1pppp/8/3p4/3P4/8/PPP1PPPP/RNBQKBNR w KQkq - 0 2",
+			"rnbqk2r/pppp1ppp/5n2/2b1p3/2B1P3/3P1N2/PPP2PPP/RNBQK2R b KQkq - 0 4", "r1bqk2r/pppp1ppp/2n2n2/2b1p3/2B1P3/2NP1N2/PPP2PPP/R1BQK2R b KQkq - 0 5",
+			"r3k2r/pppq1ppp/2npbn2/2b1p3/2B1P3/2NPBN2/PPPQ1PPP/R3K2R w KQkq - 0 8", "rnbqk2r/ppp1ppbp/3p1np1/8/2PPP3/2N5/PP3PPP/R1BQKBNR w KQkq - 0 5"}
+		q := rc.MustParse(open[rapid.IntRange(0, len(open)-1).Draw(t, "opening")])
+		pl := hx.GenPlayoutFrom(t, q, rapid.IntRange(0, 14).Draw(t, "openingPlies"), 2)
+		// prefer roots where a check can be answered by a pawn-push interposition while the checked king still
+		// has a castling right with a free path (construction by bounded re-drawing, counted by label)
+		for try := 0; try < 30 && !castleCheckShape(pl); try++ {
+			q = rc.MustParse(open[rapid.IntRange(0, len(open)-1).Draw(t, "opening2")])
+			pl = hx.GenPlayoutFrom(t, q, rapid.IntRange(2, 16).Draw(t, "openingPlies2"), 2)
+		}
+		c := fixed(pl)
+		// depth 3 whenever the reference tree allows it (an interior node needs a hash move from an earlier iteration)
+		poss, _ := c.Play.Replay()
+		if n := len(poss[len(poss)-1].Legal()); maxDepth >= 3 && pow(n+1, 3) <= 60000 {
+			c.Depth = 3
+		}
+		return c
 	case 8: // one ply before a forced reply (ep evasion / interposing double step / promotion / <= 2 moves)
 		fc := hx.GenForced(t)
 		start := fc.Fen
@@ -441,6 +462,41 @@ func genC06(t *rapid.T, maxDepth int, quiescence bool) c06Case {
 	}
 	c.Combos = []int{0, 127, 1 << uint(rapid.IntRange(0, 6).Draw(t, "single")), rapid.IntRange(1, 126).Draw(t, "combo2")} // all off, all on, one technique alone (nothing masks its errors), a drawn mix
 	return c
+}
+
+// castleCheckShape: the root's side to move has a check after which the checked side (a) still holds a castling
+// right with an empty path between king and rook and (b) can interpose a pawn by a quiet push.
+func castleCheckShape(pl hx.Playout) bool {
+	poss, _ := pl.Replay()
+	root := poss[len(poss)-1]
+	for _, m := range root.Legal() {
+		n := root.Make(m)
+		if !n.InCheck(n.White) {
+			continue
+		}
+		k, q := 0, 1
+		rank := 0
+		if !n.White {
+			k, q, rank = 2, 3, 7
+		}
+		free := func(files ...int) bool {
+			for _, f := range files {
+				if n.B[rc.Sq(f, rank)] != 0 {
+					return false
+				}
+			}
+			return true
+		}
+		if !(n.Castle[k] && free(5, 6)) && !(n.Castle[q] && free(1, 2, 3)) {
+			continue
+		}
+		for _, r := range n.Legal() {
+			if rc.Upper(n.B[r.From]) == 'P' && rc.FileOf(r.From) == rc.FileOf(r.To) && r.Kind == rc.Normal {
+				return true
+			}
+		}
+	}
+	return false
 }
 
 func pow(b, e int) int {
